@@ -74,12 +74,34 @@ def run(ctx):
                     validator = validator or atom[1]["call"]["id"]
                     if atom[1]["call"]["id"] != validator:
                         ok = False
+        if not ok:
+            # through a guard function: `validate(s)?` where validate returns Ok only when the validator accepts its argument
+            for cbb, t in b.calls():
+                gb = co.body(t["call"].get("id")) if t["call"].get("local") else None
+                if gb is None or not t["args"] or "Result" not in tystr(b.local_ty(place_local(t["dest"]))):
+                    continue
+                if not (dt.dominated_by_success(cfg, F, cbb, bb) and same_string(tr, t["args"][0], stored, b)):
+                    continue
+                gcfg, gtr = CFG(gb), Tracer(gb)
+                goks = [o for o in dt.ok_return_blocks(gb) if o[2]["r"].get("variant") == "Ok"]
+                vids = set()
+                for obb, _, os_ in goks:
+                    hit = None
+                    for sbb, allowed, allv in dt.edge_conditions(gcfg, obb):
+                        atom = dt.switch_atom(gb, sbb)
+                        if atom[0] == "call" and atom[1]["call"].get("local") and dt.bool_polarity(allowed) is True and tystr(gb.local_ty(place_local(atom[1]["dest"]))) == "bool" \
+                                and gtr.root_locals(atom[1]["args"][0]) == {1}:
+                            hit = atom[1]["call"]["id"]
+                    vids.add(hit)
+                if goks and None not in vids and len(vids) == 1 and (validator in (None, next(iter(vids)))):
+                    validator = next(iter(vids))
+                    ok = True
         if ok:
             guarded += 1
         ctx.check(ok, "R16.1", where, f"{b.id}|guarded-site",
                   f"{b.id}: BearerToken constructed without being control-dependent on the validator returning true for the stored string",
                   instance=f"{b.id}: BearerToken(s) guarded by validator(s) == true")
-    ctx.floor("R16.1", "BearerToken construction sites", len(bt_sites), 3)
+    ctx.floor("R16.1", "BearerToken construction sites", len(bt_sites), 2)
     ctx.check(guarded >= 2, "R16.1", "conjure_object", "token|guarded-routes", f"only {guarded} guarded token construction routes found (FromStr and Deserialize expected)", nontrivial=False)
     # ---- R16.2 token validator = specification language
     if validator:
@@ -130,6 +152,20 @@ def run(ctx):
                             gets.add(c_.get("int") if c_ else None)
                         if t["call"]["name"] == "end" and t["call"]["def"].startswith("regex::"):
                             ends += 1
+                        if t["call"]["def"].startswith("core::ops::function::Fn") and len(t["args"]) == 2:
+                            # a local closure |n| captures.get(n).unwrap().end() applied to a constant group number
+                            res = (t["call"].get("resolved") or {})
+                            clo = co.body(res.get("id")) if res.get("local") else None
+                            kk = None
+                            r_ = dt.resolve_copy(b, t["args"][1])
+                            if r_[0] == "def" and r_[1][1] != "T" and r_[1][2]["r"].get("agg") == "tuple" and len(r_[1][2]["r"]["ops"]) == 1:
+                                kk = (r_[1][2]["r"]["ops"][0].get("c") or {}).get("int")
+                            if clo is not None and kk is not None:
+                                cg = [t2 for _, t2 in clo.calls() if t2["call"]["name"] == "get" and t2["call"]["def"].startswith("regex::")]
+                                ce_ = [t2 for _, t2 in clo.calls() if t2["call"]["name"] == "end" and t2["call"]["def"].startswith("regex::")]
+                                if len(cg) == 1 and len(ce_) == 1 and Tracer(clo).root_locals(cg[0]["args"][1]) == {2}:
+                                    gets.add(kk)
+                                    ends += 1
                 exp = {"service_end": 1, "instance_end": 2, "type_end": 3}.get(fname)
                 ctx.check(exp is not None and gets == {exp} and ends == 1, "R16.5", where, f"rid|boundary|{fname}",
                           f"boundary field {fname} is the end of capture group(s) {sorted(gets, key=str)} (end() calls: {ends}); expected group {exp}",
@@ -247,6 +283,18 @@ def check_from_components(ctx, co, b):
             if pol is False and pc is not None and (pc.get("char") == "." or pc.get("str") == "."):
                 for r in roots:
                     tested[r] = True
+        if atom[0] == "call" and atom[1]["call"]["name"] == "any" and pol is False and len(atom[1]["args"]) == 2:
+            # [a, b, c].iter().any(|x| x.contains('.')) == false
+            t = atom[1]
+            clos = [s_ for s_ in tr.sources(t["args"][1]) if s_[0] == "agg"]
+            clo = co.body(b.blocks[clos[0][1]]["s"][clos[0][2]]["r"].get("id")) if len(clos) == 1 else None
+            if clo is not None:
+                cc = [t2 for _, t2 in clo.calls() if t2["call"]["name"] == "contains"]
+                dotc = len(cc) == 1 and ((dt.resolve_const(clo, cc[0]["args"][1]) or {}).get("char") == "." or (dt.resolve_const(clo, cc[0]["args"][1]) or {}).get("str") == ".") \
+                    and 2 in Tracer(clo, through_calls=True).root_locals(cc[0]["args"][0]) and place_local(cc[0]["dest"]) in dt.return_aliases(clo)
+                if dotc:
+                    for r in Tracer(b, through_calls=True, through_agg=True).root_locals(t["args"][0]):
+                        tested[r] = True
     for k, name in ((1, "service"), (2, "instance"), (3, "type")):
         ctx.check(tested.get(k), "R16.3", b.loc(), f"from_components|{name}",
                   f"from_components: the {name} component is not tested for '.' before formatting (a dotted component could shift the boundaries and still parse)",
@@ -297,7 +345,7 @@ def renderings(ctx, co, adt, names, field):
         n += 1
         calls = [t["call"]["def"] for _, t in b.calls() if t["call"]["def"] not in Tracer.TRANSPARENT and "deref" not in t["call"]["def"]]
         ctx.check(not calls, "R16.5", b.loc(), f"{adt.split('::')[-1]}|{b.name}|identity", f"{b.id} transforms the stored string through {calls}", instance=f"{adt.split('::')[-1]}::{b.name} returns the stored string")
-    ctx.floor("R16.5", f"rendering accessors of {adt.split('::')[-1]}", n, 4)
+    ctx.floor("R16.5", f"rendering accessors of {adt.split('::')[-1]}", n, 2)
     for trn in ("core::fmt::Display", "serde_core::ser::Serialize"):
         for b in co.bodies:
             if b.trait == trn and ty_adt(b.self_ty) == adt and b.kind == "assoc_fn":
